@@ -495,6 +495,10 @@ func globalName(g *ssa.Global) string {
 
 func (b *builder) call(c *ssa.Call) *Expr {
 	cc := c.Common()
+	// the SDK's fixed-width encoder is make([]byte, 8) + binary.BigEndian.PutUint64: the same origin as the hand-written form
+	if sc := cc.StaticCallee(); sc != nil && sc.Name() == "Uint64ToBigEndian" && FnPkg(sc) != nil && FnPkg(sc).Path() == pkgSDKTypes && len(cc.Args) == 1 {
+		return &Expr{Op: "enc", Name: "be64", Args: []*Expr{b.expr(cc.Args[0])}, Call: c}
+	}
 	e := &Expr{Op: "call", Name: calleeName(cc), Call: c}
 	if cc.IsInvoke() {
 		e.Ext = cc.Method
@@ -1597,3 +1601,30 @@ func (w *World) PathTuples(ret *ssa.Return, maxPaths int) ([][]*Expr, bool) {
 
 // GlobalName is the repo-relative name of a package-level variable.
 func GlobalName(g *ssa.Global) string { return globalName(g) }
+
+// Replace returns e with every occurrence of the sub-expression `old` (by identity or equal text) replaced by `new`.
+func Replace(e, old, new *Expr) *Expr {
+	if e == nil {
+		return nil
+	}
+	if e == old || e.String() == old.String() {
+		return new
+	}
+	if len(e.Args) == 0 {
+		return e
+	}
+	ne := *e
+	ne.str = ""
+	ne.Args = make([]*Expr, len(e.Args))
+	changed := false
+	for i, a := range e.Args {
+		ne.Args[i] = Replace(a, old, new)
+		if ne.Args[i] != a {
+			changed = true
+		}
+	}
+	if !changed {
+		return e
+	}
+	return &ne
+}
